@@ -391,6 +391,7 @@ def run(ctx):
         "traces_validated_against_impl": len(tr_lines),
         "trace_checker_disagreements": len(trace_disagree),
         "alloc_sites": len(sites),
+        "alloc_site_classes": site_classes(sites),
         "finding_keys": {k: len(v) for k, v in sorted(by_key.items())},
         "pending_keys_listed": len(PENDING),
     })
@@ -424,6 +425,21 @@ def run(ctx):
         if trace_disagree:
             ctx.violation("trace-checker-vs-harness", {"broken": "the verified trace_ok and the harness' own accounting disagree",
                                                        "first_cases": trace_disagree[:5]}, found_input=False)
+
+
+def site_classes(sites):
+    """how many allocation call sites (Gen/AllocSites.v) lie in functions transcribed in the heap model and how many are
+    covered by enumeration only (coq/Model/AllocClasses.v)"""
+    txt = open(os.path.join(common.COQ, "Model", "AllocClasses.v")).read()
+
+    def block(name):
+        m = re.search(r"Definition %s .*?:= \[(.*?)\n\]\." % name, txt, re.S)
+        return set(re.findall(r'\("([^"]+)", "([^"]+)", \d+\)', m.group(1))) if m else set()
+    mod, enum = block("modelled_sites"), block("enumerated_sites")
+    nm = sum(1 for f, fn, _, _ in sites if (f, fn) in mod)
+    ne = sum(1 for f, fn, _, _ in sites if (f, fn) in enum and (f, fn) not in mod)
+    return {"modelled_functions": len(mod), "enumerated_functions": len(enum - mod), "call_sites_in_modelled_functions": nm,
+            "call_sites_enumerated_only": ne, "call_sites_unclassified": len(sites) - nm - ne}
 
 
 def a_short(m):
